@@ -236,14 +236,29 @@ func runReader(stream []byte, max int, frags []int) readResult {
 	var res readResult
 	var ms0, ms1 runtime.MemStats
 	runtime.ReadMemStats(&ms0)
-	go pr.Run()
+	// Run executes on this goroutine's child so that a Go panic inside the read loop is an
+	// observation (end=panic:<msg>) with a replayable case instead of a dead harness process.
+	panicked := make(chan string, 1)
+	go func() {
+		defer func() {
+			if r := recover(); r != nil {
+				panicked <- strings.ReplaceAll(strings.ReplaceAll(fmt.Sprint(r), " ", "_"), "\n", "_")
+			}
+		}()
+		pr.Run()
+	}()
 	deadline := time.After(60 * time.Second)
+	var panicMsg string
 loop:
 	for {
 		select {
 		case m := <-pr.Messages():
 			res.msgs = append(res.msgs, canonMsg(m))
 		case <-pr.Done():
+			select {
+			case panicMsg = <-panicked:
+			default:
+			}
 			break loop
 		case <-deadline:
 			res.timedOut = true
@@ -257,6 +272,15 @@ loop:
 	res.end = errClass(lg.last())
 	if res.timedOut {
 		res.end = "hang"
+	}
+	if panicMsg == "" {
+		select {
+		case panicMsg = <-panicked:
+		default:
+		}
+	}
+	if panicMsg != "" {
+		res.end = "panic:" + panicMsg
 	}
 	return res
 }
